@@ -7,7 +7,8 @@
   2. spec -> code: the abstract frames are taken out of TLC (-dump), concretised and given to the real
      Command / Command._from_attrs / Command.from_cli / Packet.from_port / Packet.from_file;
      sessions of annotated lines and whole shipped logs go through the real packet-log file handler
-     and back through the real FileTransport.
+     and back through the real FileTransport; histories (the packet log configured several times in one
+     process, only the library's own set_pkt_logging in between) run in a forked child, file by file.
   3. code -> spec: TLC judges every recorded row / session (FrameGrammarTrace, PktLogTrace).
 """
 from __future__ import annotations
@@ -17,6 +18,7 @@ import json
 import os
 import sys
 import time
+from typing import Any
 
 from harness import ext_c02 as X
 from harness import ext_c04 as X4
@@ -49,8 +51,33 @@ def model_check(chk: Check, tier: str, stats: dict) -> list[dict]:
     if not r3.ok:
         raise tlc.MachineryFailure(f"MC_PktLog did not hold: {r3.violated} {r3.errors[:2]}\n{r3.out[-1500:]}")
     stats["mc_log"] = {"cfg": cfg, "distinct_states": r3.distinct, "generated": r3.states,
-                       "clauses": ["InvLogIdentity", "InvLineShape"], "wall_s": round(r3.wall_s, 1)}
-    print(f"TLC MC_PktLog ({cfg}): {r3.distinct} sequences, write->replay identity holds ({r3.wall_s:.1f}s)")
+                       "clauses": ["InvLogIdentity", "InvLineShape", "InvHistIdentity"], "wall_s": round(r3.wall_s, 1)}
+    print(f"TLC MC_PktLog ({cfg}): {r3.distinct} states (sequences of lines + histories of sessions in one process), "
+          f"write->replay identity holds, per log file too ({r3.wall_s:.1f}s)")
+    if tier == "thorough":       # the histories with cc_console in every session or not (the handler list then has 3-4 entries)
+        r4 = tlc.run_tlc("MC_PktLog", "MC_PktLog_hist_console.cfg", workers=_workers(tier), timeout=1500)
+        if not r4.ok:
+            raise tlc.MachineryFailure(f"MC_PktLog_hist_console did not hold: {r4.violated} {r4.errors[:2]}\n{r4.out[-1500:]}")
+        stats["mc_log_console"] = {"cfg": "MC_PktLog_hist_console.cfg", "distinct_states": r4.distinct, "generated": r4.states,
+                                   "clauses": ["InvHistIdentity"], "wall_s": round(r4.wall_s, 1)}
+        print(f"TLC MC_PktLog_hist_console: {r4.distinct} histories with cc_console, every file replays as its own sessions ({r4.wall_s:.1f}s)")
+    # refuted sensitivity instance: the clean-up loop as it was before e6ce7db (every other handler survives) breaks the
+    # law; its counter-example is run on the real code (which no longer has the defect)
+    r5 = tlc.run_tlc("MC_PktLog", "MC_PktLog_x_cleanup.cfg", workers=2, timeout=600)
+    if r5.errors or "InvHistIdentity" not in r5.violated or not r5.error_trace:
+        raise tlc.MachineryFailure(f"MC_PktLog_x_cleanup: expected a counter-example to InvHistIdentity\n{r5.out[-1500:]}")
+    plan = X.plan_of_model_history(r5.error_trace[-1][1]["hist"])
+    item = X.log_histories([plan])[0]
+    n_acc = {fr["name"]: sum(w["acc"] for h in item["hist"] if h["file"] == fr["name"] for w in h["written"]) for fr in item["files"]}
+    real = {fr["name"]: {"accepted_while_configured": n_acc[fr["name"]], "replayed": len(fr["replayed"])} for fr in item["files"]}
+    reproduced_h = any(v["accepted_while_configured"] != v["replayed"] for v in real.values())
+    print(f"TLC MC_PktLog_x_cleanup (clean-up loop as before e6ce7db): InvHistIdentity fails at {plan['name']}; on the real code: "
+          f"{'reproduced ' + str(real) if reproduced_h else 'NOT reproduced (the code no longer has this defect)'}")
+    cand_h = {"instance": "MC_PktLog_x_cleanup.cfg", "invariant": "InvHistIdentity", "counterexample": plan["name"], "real": real,
+              "reproduced_on_code": reproduced_h}
+    if reproduced_h:
+        chk.note("MC_PktLog_x_cleanup: the real set_pkt_logging behaves like the refuted instance (old handlers survive); "
+                 "the judged histories below carry the verdict")
     # implementation-shaped instance: the counter-example is a candidate -> replay it on the code
     r2 = tlc.run_tlc("MC_FrameGrammar", "MC_FrameGrammar_impl_cli.cfg", workers=2, timeout=600)
     if r2.errors or "InvCli" not in r2.violated or not r2.error_trace:
@@ -60,7 +87,7 @@ def model_check(chk: Check, tier: str, stats: dict) -> list[dict]:
     reproduced = bool(rows) and rows[0]["acc"] == 1 and rows[0]["out"] != X.frame_text(f)
     stats["mc_candidates"] = [{"instance": "MC_FrameGrammar_impl_cli.cfg", "invariant": "InvCli", "counterexample": f,
                                "real": {k: rows[0].get(k) for k in ("text", "acc", "exc", "out")} if rows else None,
-                               "reproduced_on_code": reproduced}]
+                               "reproduced_on_code": reproduced}, cand_h]
     print(f"TLC MC_FrameGrammar_impl_cli: InvCli fails at {X.frame_text(f)!r}; on the real code: "
           f"{'reproduced' if reproduced else 'NOT reproduced (the code no longer has this defect)'}")
     if not reproduced:
@@ -100,6 +127,9 @@ def report_logs(chk: Check, items: list[dict], meta: list[dict], res: dict, stat
     per_key: dict[str, int] = {}
     drift: dict[str, list] = {}
     for idx, fails in res["rejects"]:
+        if "hist" in items[idx]:
+            report_hist(chk, items[idx], meta[idx], fails, per_key, drift)
+            continue
         for (pos, clause, pattern) in sorted(fails):
             m = meta[idx]
             if clause == "drift":
@@ -117,6 +147,24 @@ def report_logs(chk: Check, items: list[dict], meta: list[dict], res: dict, stat
     for pattern, (n, first) in sorted(drift.items()):
         chk.model_drift(f"log sessions: {pattern} in {n} sessions, first: {first[:300]}")
     stats["failing_sessions_per_key"] = dict(sorted(per_key.items()))
+
+
+def report_hist(chk: Check, it: dict, m: dict, fails: Any, per_key: dict, drift: dict) -> None:
+    """A history item (the packet log configured several times in one process): verdicts are per log file."""
+    for (pos, clause, pattern, fi) in sorted(fails):
+        fr = it["files"][fi - 1]
+        if clause == "drift":
+            drift.setdefault(pattern, [0, f"{m['name']} file {fr['name']} #{pos}: lines {fr['lines'][max(0, pos - 2): pos + 1]}"])[0] += 1
+            continue
+        key = f"C02{clause}:{m['site']}:{pattern}"
+        per_key[key] = per_key.get(key, 0) + 1
+        acc = [w for h in it["hist"] if h["file"] == fr["name"] for w in h["written"] if w["acc"]]
+        chk.violation(key, f"log {m['name']} (packet log configured {len(it['hist'])} times in one process), file {fr['name']}: "
+                           f"{pattern} at packet #{pos}: accepted while it was the packet log "
+                           f"{acc[pos - 1] if 0 < pos <= len(acc) else None} replayed "
+                           f"{fr['replayed'][pos - 1] if 0 < pos <= len(fr['replayed']) else None} "
+                           f"({len(acc)} accepted, {len(fr['replayed'])} replayed)",
+                      {"kind": "log", **m, "clause": clause, "pattern": pattern, "position": pos, "file": fr["name"]})
 
 
 def _offers_json(offers: list[dict]) -> list[dict]:
@@ -154,6 +202,13 @@ def build_log_items(tier: str, seed: int) -> tuple[list[dict], list[dict]]:
     for p in (logs if tier == "thorough" else logs[:4]):
         items.append(X.gateway_log_session(p))
         meta.append({"name": "gateway:" + p, "gateway": p, "site": "gwylog"})
+    # histories: the packet log configured 2..N times in one process, only the library's own set_pkt_logging in
+    # between (every session above starts from a logger the harness has emptied); each file must replay as what was
+    # accepted while it was the configured log.
+    plans = X.history_plans(tier, seed)
+    for plan, item in zip(plans, X.log_histories(plans)):
+        items.append(item)
+        meta.append({"name": plan["name"], "history": [dict(s, offers=_offers_json(s["offers"])) for s in plan["sessions"]], "site": "pktlog"})
     return items, meta
 
 
@@ -173,7 +228,10 @@ def replay(path: str) -> None:
             print(f"  real code now: accepted={r['acc']} exc={r.get('exc')!r} printed={r.get('out')!r}")
         res = judge_frames(rows, 1)
     else:
-        if rp.get("gateway"):
+        if rp.get("history"):
+            item = X.log_histories([{"sessions": [dict(s, offers=[dict(o, dtm=dt.fromisoformat(o["dtm"])) for o in s["offers"]])
+                                                  for s in rp["history"]]}])[0]
+        elif rp.get("gateway"):
             item = X.gateway_log_session(rp["gateway"])
         elif rp.get("path"):
             item = X.real_log_session(rp["path"])
@@ -183,13 +241,21 @@ def replay(path: str) -> None:
         else:
             item = X.log_session(X.synthetic_sessions(rp.get("tier", "quick"), rp.get("seed", 0))[rp["synthetic"]],
                                  via=rp.get("via", "port"), logcfg=rp.get("logcfg", "plain"))
-        print(f"replay log session {rp['name']}: {len(item['written'])} offered, {sum(w['acc'] for w in item['written'])} accepted, "
-              f"{len(item['lines'])} lines written, {len(item['replayed'])} replayed")
+        if "hist" in item:
+            print(f"replay log {rp['name']}: " + "; ".join(
+                f"session {k + 1}: file {h['file'] or '-'}{' +console' if h['console'] else ''}, {len(h['written'])} offered, "
+                f"{sum(w['acc'] for w in h['written'])} accepted" for k, h in enumerate(item["hist"])))
+            for fr in item["files"]:
+                print(f"  file {fr['name']}: {len(fr['lines'])} lines, {len(fr['replayed'])} packets replayed")
+        else:
+            print(f"replay log session {rp['name']}: {len(item['written'])} offered, {sum(w['acc'] for w in item['written'])} accepted, "
+                  f"{len(item['lines'])} lines written, {len(item['replayed'])} replayed")
         res = judge_logs([item], 1)
     bad = False
     for _idx, fails in res["rejects"]:
-        for (pos, clause, pattern) in sorted(fails):
-            print(f"  TLC verdict  : {'clause ' + clause + ' FAILS' if clause in ('a', 'b') else clause} ({pattern}) at #{pos}")
+        for (pos, clause, pattern, *fi) in sorted(fails):
+            print(f"  TLC verdict  : {'clause ' + clause + ' FAILS' if clause in ('a', 'b') else clause} ({pattern}) at #{pos}"
+                  + (f" of file {item['files'][fi[0] - 1]['name']}" if fi else ""))
             bad = bad or clause in ("a", "b")
     if not res["rejects"]:
         print("  TLC verdict  : accepted (all clauses hold)")
@@ -221,12 +287,19 @@ def main(tier: str, replay_file: str | None) -> None:
     res2 = judge_logs(items, _workers(tier)) if items else {"rejects": [], "states": 0, "transitions": 0}
     t5 = time.time()
     report_logs(chk, items, meta, res2, stats)
-    npk = sum(len(it["written"]) for it in items)
-    print(f"logs: {len(items)} write->replay sessions ({npk} offered lines, {sum(len(it['replayed']) for it in items)} packets replayed; "
+    hists = [it for it in items if "hist" in it]
+    plain = [it for it in items if "hist" not in it]
+    npk = sum(len(it["written"]) for it in plain) + sum(len(h["written"]) for it in hists for h in it["hist"])
+    nrep = sum(len(it["replayed"]) for it in plain) + sum(len(fr["replayed"]) for it in hists for fr in it["files"])
+    print(f"logs: {len(plain)} write->replay sessions + {len(hists)} histories of 2-{max([len(it['hist']) for it in hists] or [0])} sessions in one "
+          f"process ({sum(len(it['files']) for it in hists)} files) ({npk} offered lines, {nrep} packets replayed; "
           f"python {t4 - t3:.1f}s), judged by TLC in {t5 - t4:.1f}s; {len(res2['rejects'])} sessions with findings")
     ok_rows = [r for r in rows if r["acc"]]
     samples = [{"ctor": r["ctor"], "input": r["text"], "printed": r["out"]} for r in ok_rows[:: max(1, len(ok_rows) // 12)][:12]]
-    samples += [{"log_session": m["name"], "lines": it["lines"][:2], "replayed": it["replayed"][:2]} for it, m in list(zip(items, meta))[-3:]]
+    samples += [{"log_session": m["name"], "lines": it["lines"][:2], "replayed": it["replayed"][:2]}
+                for it, m in [(it, m) for it, m in zip(items, meta) if "hist" not in it][-3:]]
+    samples += [{"log_history": m["name"], "files": {fr["name"]: {"lines": fr["lines"][:2], "replayed": len(fr["replayed"])} for fr in it["files"]}}
+                for it, m in [(it, m) for it, m in zip(items, meta) if "hist" in it][:: max(1, len(hists) // 3)][:3]]
     chk.finish(
         coverage={
             "states": stats["mc_frame"]["distinct_states"] + stats["mc_log"]["distinct_states"] + res["states"] + res2["states"],
@@ -234,12 +307,15 @@ def main(tier: str, replay_file: str | None) -> None:
             "traces_validated_against_impl": len(rows) + len(items),
             "programs": 7,
             "disagreements_checked": len(rows) + npk,
-            "model_checking": [stats["mc_frame"], stats["mc_log"]],
+            "model_checking": [stats["mc_frame"], stats["mc_log"]] + ([stats["mc_log_console"]] if "mc_log_console" in stats else []),
             "model_counterexamples_replayed": stats["mc_candidates"],
             "frames": fstats,
             "constructor_calls": len(rows),
             "constructor_calls_accepted": len(ok_rows),
-            "log_sessions": len(items),
+            "log_sessions": len(plain),
+            "log_histories": {"histories": len(hists), "sessions": sum(len(it["hist"]) for it in hists),
+                              "files_replayed": sum(len(it["files"]) for it in hists),
+                              "with_cc_console": sum(any(h["console"] for h in it["hist"]) for it in hists)},
             "log_lines_offered": npk,
             "real_logs": [m["name"] for m in meta if m.get("path")],
             "failing_rows_per_key": stats["failing_rows_per_key"],
